@@ -35,7 +35,7 @@ def declare(spec):
             ("inf-servers-none", "implies(isinf(self.c), result is None)"),
             ("C04:none-iff-all-busy",
              "implies(not isinf(self.c), (result is None) == forall_in(self.servers, lambda s: s.busy))"),
-            ("C04:free-member", "implies(result is not None, result in self.servers and not result.busy)"),
+            ("C04:free-member", "implies(result is not None, result in self.servers and not result.busy and was_alive(result))"),
             ("C05:first-free-in-list-order",
              "implies(result is not None and self.server_priority_function is None, "
              "forall_idx(self.servers, lambda k, s: implies(k < index_of(self.servers, result), s.busy)))"),
@@ -44,11 +44,13 @@ def declare(spec):
         props=["C04", "C05"])
 
     add(spec, "Node.choose_next_customer",
-        requires=["len(self.individuals) == self.simulation.number_of_priority_classes"],
+        requires=["len(self.individuals) == self.simulation.number_of_priority_classes",
+                  "forall_in(self.individuals, lambda q: forall_in(q, lambda x: ref_eq(loc(x), self)))"],
         returns="opt:" + IND, allocates=True, modifies=[],
         ensures=[
             ("C05:none-iff-nobody-waits",
              "(result is None) == forall_in(self.individuals, lambda q: forall_in(q, lambda i: i.server))"),
+            ("chosen-customer-is-at-this-node-and-waiting", "implies(result is not None, ref_eq(loc(result), self) and not result.server and was_alive(result))"),
             ("C08:highest-priority-class-with-a-waiting-customer",
              "implies(result is not None, exists_int(lambda p: 0 <= p and p < len(self.individuals) "
              "and result in self.individuals[p] and not result.server "
@@ -98,6 +100,8 @@ def declare(spec):
         "  and c in n.simulation.routers "
         "  and c in n.simulation.service_times[n.id_number] and n.simulation.service_times[n.id_number][c] is not None "
         "  and len(n.simulation.network.customer_classes[c].reneging_time_distributions) == n.simulation.network.number_of_nodes)")
+    # ordinary (float) arithmetic: the clock is an int / float; ExactNode runs are verified separately (C20)
+    M["float_clock"] = "lambda n: is_fin(n.simulation.current_time) or is_pinf(n.simulation.current_time)"
     M["cls_ok"] = "lambda n, i: i.customer_class in n.simulation.network.customer_class_names"
     M["prio_ok"] = "lambda n, i: 0 <= i.priority_class and i.priority_class < len(n.individuals)"
     M["prev_prio_ok"] = "lambda n, i: 0 <= i.prev_priority_class and i.prev_priority_class < len(n.individuals)"
@@ -166,10 +170,14 @@ def declare(spec):
     # a customer that may be (re)started: never served on this visit, or pre-empted with its bookkeeping in place
     M["restartable"] = ("lambda i: i.service_time is False or "
                         "((i.service_time == 'resample' or i.service_time == 'restart' or i.service_time == 'resume') and has(i, 'time_left') "
-                        " and has(i, 'original_service_time') and is_fin(i.time_left) and is_fin(i.original_service_time))")
+                        " and has(i, 'original_service_time') and is_fin(i.time_left) and i.time_left >= 0 and is_time(i.original_service_time) and is_fin(i.original_service_time) and i.original_service_time >= 0)")
     M["waiting_ok"] = ("lambda n, i: cls_ok(n, i) and restartable(i) and "
                        "implies(n.dynamic_classes, has(i, 'class_change_date'))")
-    M["all_waiting_ok"] = "lambda n: forall_in(n.individuals, lambda q: forall_in(q, lambda i: implies(not i.server, waiting_ok(n, i))))"
+    # abstract view of a node's population through the ghost location map (I-POP, forward direction):
+    # whoever is filed in one of the node's lines is located at the node
+    M["pop_fwd"] = "lambda n: forall_in(n.individuals, lambda q: forall_in(q, lambda x: ref_eq(loc(x), n)))"
+    M["all_waiting_ok"] = ("lambda n: forall_obj('Individual', lambda i: implies(ref_eq(loc(i), n) and not i.server, waiting_ok(n, i)), "
+                           "trigger=lambda i: loc(i))")
     M["dyn_ok"] = "lambda n: implies(n.dynamic_classes, has(n, 'next_class_change_ind'))"
 
     AT_SELF = "@lambda o: ref_eq(loc(o), self)"
@@ -254,3 +262,96 @@ def declare(spec):
             "forall_in(['slotted_service', 'shift_change', 'class_change', 'renege'], lambda k: ref_eq(pne(self, k), old(pne(self, k))))",
         ]},
         props=["C02", "C07", "C12"])
+
+    # ---- class change while waiting: draw the next class and date (C09 / C02 / C10) ----------------------------
+    add(spec, "Node.decide_class_change",
+        types={"next_individual": IND},
+        requires=["shape(self)", "net_ok(self)", "cls_ok(self, next_individual)", "float_clock(self)",
+                  "implies(self.dynamic_classes is True, forall_in(self.individuals, lambda q: forall_in(q, lambda i: "
+                  "ref_eq(i, next_individual) or has(i, 'class_change_date'))))"],
+        modifies=["next_class@next_individual", "class_change_date@next_individual", "next_class_change_date@self",
+                  "next_class_change_ind@self"], allocates=True,
+        ensures=[
+            ("C14:bookkeeping-exists", "implies(self.dynamic_classes is True, has(next_individual, 'class_change_date') "
+                                       "and has(next_individual, 'next_class') and has(self, 'next_class_change_ind'))"),
+            ("C02:class-change-not-scheduled-in-the-past",
+             "implies(self.dynamic_classes is True, next_individual.class_change_date >= self.now)"),
+            ("static-classes-nothing-happens", "implies(not (self.dynamic_classes is True), same('class_change_date', 'next_class'))"),
+        ],
+        loop_invariants={0: ["is_time(next_time)", "is_fin(next_time) or is_pinf(next_time)", "next_time >= 0"]},
+        raises=[("ValueError", "True")],
+        props=["C02", "C09", "C10"])
+
+    # ---- restarting interrupted customers (pre-emptive shift end) -------------------------------------------
+    M["interrupted_head_ok"] = (
+        "lambda n: len(n.interrupted_individuals) > 0 and cls_ok(n, n.interrupted_individuals[0]) "
+        "and has(n.interrupted_individuals[0], 'time_left') and has(n.interrupted_individuals[0], 'original_service_time') "
+        "and (n.interrupted_individuals[0].service_time == 'resample' or n.interrupted_individuals[0].service_time == 'restart' "
+        "     or n.interrupted_individuals[0].service_time == 'resume') "
+        "and is_fin(n.interrupted_individuals[0].time_left) and n.interrupted_individuals[0].time_left >= 0 and is_time(n.interrupted_individuals[0].original_service_time) "
+        "and is_fin(n.interrupted_individuals[0].original_service_time) and n.interrupted_individuals[0].original_service_time >= 0 "
+        "and implies(n.interrupted_individuals[0].is_blocked, is_int(n.interrupted_individuals[0].destination) "
+        "    and 1 <= n.interrupted_individuals[0].destination and n.interrupted_individuals[0].destination <= n.simulation.network.number_of_nodes "
+        "    and is_obj(n.simulation.nodes[n.interrupted_individuals[0].destination], 'Node') "
+        "    and (n.id_number, n.interrupted_individuals[0].id_number) in as_obj(n.simulation.nodes[n.interrupted_individuals[0].destination], 'Node').blocked_queue)")
+
+    add(spec, "Node.begin_interrupted_individuals_service",
+        types={"srvr": SRV},
+        requires=["net_ok(self)", "float_clock(self)", "interrupted_head_ok(self)"],
+        modifies=[f + "@self.interrupted_individuals[0]" for f in IND_FIELDS] +
+                 [f + "@srvr" for f in SRV_FIELDS] +
+                 ["number_in_service@self", "number_interrupted_individuals@self", "$seq@self.interrupted_individuals",
+                  "$seq[BlockedQ]", "len_blocked_queue"],
+        allocates=True, raises=[("ValueError", "True")],
+        ensures=[
+            ("C12:interrupted-customer-restarted-first-and-now",
+             "old(self.interrupted_individuals[0]).service_start_date == self.now and ref_eq(srvr.cust, old(self.interrupted_individuals[0])) "
+             "and srvr.busy and ref_eq(old(self.interrupted_individuals[0]).server, srvr) and not old(self.interrupted_individuals[0]).interrupted"),
+            ("C02:service-end-is-start-plus-service-time",
+             "old(self.interrupted_individuals[0]).service_end_date == self.now + old(self.interrupted_individuals[0]).service_time "
+             "and srvr.next_end_service_date == old(self.interrupted_individuals[0]).service_end_date"),
+            ("C11+C12:resume-restart-option-honoured",
+             "implies(old(self.interrupted_individuals[0].service_time) == 'resume', old(self.interrupted_individuals[0]).service_time == old(self.interrupted_individuals[0].time_left)) and "
+             "implies(old(self.interrupted_individuals[0].service_time) == 'restart', old(self.interrupted_individuals[0]).service_time == old(self.interrupted_individuals[0].original_service_time))"),
+            ("C02+C10:restarted-service-time-is-non-negative", "old(self.interrupted_individuals[0]).service_time >= 0"),
+            ("C12:removed-from-the-interrupted-list",
+             "S(self.interrupted_individuals) == remove_at(old(S(self.interrupted_individuals)), 0) and "
+             "self.number_interrupted_individuals == old(self.number_interrupted_individuals) - 1 and self.number_in_service == old(self.number_in_service) + 1"),
+            ("C07:unblocked-customer-leaves-the-blocked-queue",
+             "implies(old(self.interrupted_individuals[0].is_blocked), not old(self.interrupted_individuals[0]).is_blocked)"),
+        ],
+        props=["C02", "C05", "C11", "C12"])
+
+    # ---- starting the next service when a server is freed (release) ---------------------------------------------
+    add(spec, "Node.begin_service_if_possible_release",
+        types={"next_individual": IND, "newly_free_server": "opt:" + SRV},
+        requires=["shape(self)", "net_ok(self)", "float_clock(self)", "has_servers(self)", "dyn_ok(self)", "pop_fwd(self)",
+                  "all_waiting_ok(self)", "implies(isinf(self.c), newly_free_server is None)",
+                  "self.number_interrupted_individuals == len(self.interrupted_individuals)",
+                  "implies(newly_free_server is not None and newly_free_server in self.servers, not newly_free_server.busy)",
+                  "implies(not isinf(self.c) and self.number_interrupted_individuals > 0, interrupted_head_ok(self))",
+                  "implies(self.dynamic_classes, forall_in(self.individuals, lambda q: forall_in(q, lambda i: has(i, 'class_change_date'))))"],
+        modifies=[f + AT_SELF for f in IND_FIELDS] + [f + "@newly_free_server" for f in SRV_FIELDS] +
+                 ["number_in_service@self", "next_class_change_date@self", "next_class_change_ind@self",
+                  "number_interrupted_individuals@self", "$seq@self.interrupted_individuals", "$seq[BlockedQ]", "len_blocked_queue"],
+        allocates=True, raises=[("ValueError", "True")],
+        ensures=[
+            ("C05:freed-server-not-left-idle-while-someone-waits",
+             "implies(newly_free_server is not None and newly_free_server in self.servers and not newly_free_server.busy, "
+             "forall_in(self.individuals, lambda q: forall_in(q, lambda i: i.server)) and self.number_interrupted_individuals == 0)"),
+            ("C04:at-most-one-service-started",
+             "self.number_in_service == old(self.number_in_service) or self.number_in_service == old(self.number_in_service) + 1"),
+            ("C04+C05:started-iff-the-freed-server-is-now-busy",
+             "implies(newly_free_server is not None and newly_free_server in self.servers, "
+             "(self.number_in_service == old(self.number_in_service) + 1) == newly_free_server.busy)"),
+            ("C02+C10:a-started-service-starts-now-and-ends-after-its-service-time",
+             "implies(newly_free_server is not None and newly_free_server in self.servers and newly_free_server.busy, "
+             "is_obj(newly_free_server.cust, 'Individual') and as_obj(newly_free_server.cust, 'Individual').service_start_date == self.now "
+             "and as_obj(newly_free_server.cust, 'Individual').service_end_date == self.now + as_obj(newly_free_server.cust, 'Individual').service_time "
+             "and as_obj(newly_free_server.cust, 'Individual').service_time >= 0 "
+             "and newly_free_server.next_end_service_date == as_obj(newly_free_server.cust, 'Individual').service_end_date "
+             "and ref_eq(as_obj(newly_free_server.cust, 'Individual').server, newly_free_server))"),
+            ("no-usable-server-nothing-happens",
+             "implies(newly_free_server is None or not (newly_free_server in self.servers), same('service_start_date', 'service_end_date', 'server', 'number_in_service', 'cust', 'busy'))"),
+        ],
+        props=["C02", "C04", "C05", "C08", "C10", "C12"])
